@@ -24,6 +24,7 @@ fn main() {
     "c12" => vh::engines::c12::run(),
     "c12worker" => vh::engines::c12::worker(&args[2..]),
     "c13" => vh::engines::c13::run(),
+    "c17" => vh::engines::c17::run(),
     "c19" => vh::engines::c19::run(),
     "c19worker" => vh::engines::c19::worker(&args[2..]),
     "c14" => vh::engines::c14::run(),
